@@ -141,7 +141,7 @@ def sites(prog):
                 out.append(("WrapIfTrue", {"block": bpath, "from": j, "to": len(block), "shape": "suffix"}))
             if s["k"] != "let" and not _has_return([s]):
                 out.append(("WrapIfTrue", {"block": bpath, "from": j, "to": j + 1, "shape": s["k"]}))
-            if s["k"] == "let" and not s.get("const") and _never_changed(prog, bname, s["n"]) and not s["dty"].startswith("&"):
+            if s["k"] == "let" and not s.get("const") and _never_changed(prog, bname, s["n"]) and s["dty"] and not s["dty"].startswith("&"):
                 out.append(("LetToConst", {"block": bpath, "at": j, "shape": _tyclass(s["dty"])}))
             stmt_has_call = has_call({k: v for k, v in s.items() if k in EXPR_KEYS + ("lv",)})
             for holder, key, ctx in _stmt_exprs(s):
@@ -176,6 +176,8 @@ def _tyclass(dty):
         return "array"
     if dty == "bool":
         return "bool"
+    if dty.endswith("?"):
+        return "optional"
     if dty[0] in "iu" and dty[1:].isdigit():
         return "int"
     return "struct"
